@@ -125,6 +125,18 @@ theorem extra_parens_same_program (regs : Regs) (tb : TableOK regs) (lim : Nat) 
     program_as_written regs tb lim hl cs' (h.canon hcs hfs') (by rw [h.strip_eq]; exact hh), h.strip_eq]
 
 
+/-- **Stated for everything the parser accepts** (as one expression; statement chains with `;` are
+`extra_parens_same_program`): the accepted tokens are those of a canonical expression `c`
+(`accepted_expression_reading`, C02), and every re-parenthesisation `c'` of `c` that still nests
+within the limit parses to the very same result. -/
+theorem accepted_extra_parens (regs : Regs) (tb : TableOK regs) (lim : Nat) (hl : 1 ≤ lim) (toks : List Tok) (a : AST)
+    (h : parseTokens regs lim toks = .ok a) (hns : ∀ es, a ≠ .stmt es) :
+    ∃ c, Canon regs c ∧ (toks = c.flatten ∨ toks = c.flatten ++ [.semi]) ∧
+      ∀ c', ParenExt c c' → Fits lim c' → parseTokens regs lim c'.flatten = .ok a := by
+  obtain ⟨c, hc, hfl, rfl⟩ := accepted_expression_reading regs tb lim hl toks a h hns
+  refine ⟨c, hc, hfl, fun c' hp hf' => ?_⟩
+  rw [groups_as_written regs tb lim c' (hp.canon hc) hf', hp.strip_eq]
+
 /-! ## whitespace
 
 `Relayout regs s s'` (`Lemmas/Layout`): `s'` has the same token texts as `s`, in the same order;
